@@ -48,7 +48,7 @@ def quiet():
     return contextlib.redirect_stdout(io.StringIO())
 
 
-def make_card(rng, tag, float_shapes):
+def make_card(rng, tag, float_shapes, tied_constraint=False):
     card = cards.CardGen(rng, tag, nbody=3, n_chains=(2, 3), final_j2=(0, 0, 1), res_per_slot=(1, 1), models=("default", "BW"), decay_opts_prob=0.0).make()
     cfg = card["config"]
     res = card["meta"]["resonances"]
@@ -74,6 +74,16 @@ def make_card(rng, tag, float_shapes):
             pc = cfg["particle"][r1["name"]]
             pc["float"] = "m"
             pc["gauss_constr"] = {"m": 0.05}
+            if tied_constraint:
+                # the two masses are tied (var_equal, first name = r0) and the Gaussian constraint is declared on the SECOND name of the
+                # tie; the shared value (r0's mass) lies inside both kinematic windows
+                lo1 = sum(fm[j] for j in r1["slot"])
+                hi1 = M - (sum(fm) - lo1)
+                if lo1 + 0.3 < r0["m0"] < hi1 - 0.05:
+                    cfg.setdefault("constrains", {}).setdefault("var_equal", []).append([r0["name"] + "_mass", r1["name"] + "_mass"])
+                    cfg["particle"][r0["name"]].pop("m_min", None)
+                    cfg["particle"][r0["name"]].pop("m_max", None)
+                    card["meta"]["tied_constraint"] = True
     return card
 
 
@@ -90,13 +100,13 @@ def run(ctx):
             opts["bg_weight"] = 0.3
         float_shapes = model != "cached_int" and (i // len(MODEL_NAMES)) % 2 == 0
         try:
-            card = make_card(rng, tag, float_shapes)
+            card = make_card(rng, tag, float_shapes, tied_constraint=(rot_ := i % len(MODEL_NAMES) + i // len(MODEL_NAMES)) % 3 == 0)
             # ties: two couplings of different chains share their value
             with quiet():
                 probe = cards.load(card, extra_data=opts)
                 names = sorted(probe.get_amplitude().vm.trainable_vars)
             gls = [k for k in names if "g_ls" in k and k.endswith("r")]
-            if len(gls) >= 2 and i % 3 == 0:
+            if len(gls) >= 2 and i % 3 == 0 and not card["meta"].get("tied_constraint"):
                 card2 = {"config": dict(card["config"]), "meta": card["meta"]}
                 card2["config"] = __import__("copy").deepcopy(card["config"])
                 # fresh names needed for a second load of a modified card
@@ -144,6 +154,7 @@ def run(ctx):
         kinds = {("mass" if k.endswith("_mass") else "width" if k.endswith("_width") else "coupling") for k in tv}
         ctx.case((model, cards.card_digest_key(card), float_shapes), nontrivial=len(tv) >= 3 and (len(kinds) >= 2 or not float_shapes) and np.linalg.norm(g) > 1e-3)
         ctx.covered("model", model)
+        ctx.covered("gauss_constraint_declared_on", "second name of a tie" if card["meta"].get("tied_constraint") else ("free name" if cfg.gauss_constr_dic else "none"))
         for k_ in kinds:
             ctx.covered("floating_kind", k_)
         ctx.check("value alongside gradient/Hessian == stand-alone value", abs(float(v1) - v0) <= 1e-9 * (1 + abs(v0)), lambda: dict(desc(), call=v0, nll_grad=float(v1)),
